@@ -140,6 +140,10 @@ func (bm *batchModel) check(batch []int, pool int) *hx.Violation {
 			if bm.Big > 0 {
 				cmp = hx.Tol(1e-5, 2e-4) // rounding of intermediate values of magnitude ~300 (ulp 3e-5)
 			}
+			if strings.Contains(bm.Name, "/wide") {
+				// dot products of length 64 accumulated in float32 in a batch-size dependent order: |d| <= 2*64*eps*sum|a||b|
+				cmp = hx.Tol(1e-4, 2e-3)
+			}
 			if !got.DT.IsFloat() {
 				cmp = hx.Bits
 			}
@@ -256,6 +260,14 @@ func batchModels(all bool) []*batchModel {
 			mkModel(m.name, "x", []hx.DimSpec{N, fx(3)}, batchIO{[]int{1, 3}, 0}, pre, m.nodes, m.inits, m.outs, nil, nil)
 		}
 	}
+	// wide layers: products large enough for size thresholds (blocked / parallel kernels); checked with EVERY batch size
+	// 1..72 (row-block remainders) instead of the exhaustive short batches
+	mkModel("Gemm/wide(N,64)x(64,48)", "x", []hx.DimSpec{N, fx(64)}, batchIO{[]int{1, 64}, 0}, nil, []*onnx.NodeProto{hx.Node("Gemm", []string{"x", "W", "b"}, []string{"y"}, nil)}, []*onnx.TensorProto{init("W", 64, 48), init("b", 48)}, map[string]int{"y": 0}, nil, nil)
+	mkModel("Gemm{transB}/wide(N,64)x(48,64)", "x", []hx.DimSpec{N, fx(64)}, batchIO{[]int{1, 64}, 0}, nil, []*onnx.NodeProto{hx.Node("Gemm", []string{"x", "Wt"}, []string{"y"}, []hx.Attr{hx.AInt("transB", 1), hx.AFloat("alpha", 0.5)})}, []*onnx.TensorProto{init("Wt", 48, 64)}, map[string]int{"y": 0}, nil, nil)
+	mkModel("MatMul/wide(N,64)x(64,48)", "x", []hx.DimSpec{N, fx(64)}, batchIO{[]int{1, 64}, 0}, nil, []*onnx.NodeProto{hx.Node("MatMul", []string{"x", "W"}, []string{"y"}, nil)}, []*onnx.TensorProto{init("W", 64, 48)}, map[string]int{"y": 0}, nil, nil)
+	mkModel("MatMul-batched/wide(N,8,32)x(32,40)", "x", []hx.DimSpec{N, fx(8), fx(32)}, batchIO{[]int{1, 8, 32}, 0}, nil, []*onnx.NodeProto{hx.Node("MatMul", []string{"x", "W"}, []string{"y"}, nil)}, []*onnx.TensorProto{init("W", 32, 40)}, map[string]int{"y": 0}, nil, nil)
+	mkModel("GRU/wide(seq2,N,24)h32", "x", []hx.DimSpec{fx(2), N, fx(24)}, batchIO{[]int{2, 1, 24}, 1}, nil, []*onnx.NodeProto{hx.Node("GRU", []string{"x", "W", "R", "B"}, []string{"Y", "Yh"}, []hx.Attr{hx.AInt("hidden_size", 32)})}, []*onnx.TensorProto{init("W", 1, 96, 24), init("R", 1, 96, 32), init("B", 1, 192)}, map[string]int{"Y": 2, "Yh": 1}, nil, nil)
+	mkModel("LSTM/wide(seq2,N,24)h32", "x", []hx.DimSpec{fx(2), N, fx(24)}, batchIO{[]int{2, 1, 24}, 1}, nil, []*onnx.NodeProto{hx.Node("LSTM", []string{"x", "W", "R", "B"}, []string{"Y", "Yh", "Yc"}, []hx.Attr{hx.AInt("hidden_size", 32)})}, []*onnx.TensorProto{init("W", 1, 128, 24), init("R", 1, 128, 32), init("B", 1, 256)}, map[string]int{"Y": 2, "Yh": 1, "Yc": 1}, nil, nil)
 	// tensors with more structure per sample
 	mkModel("MatMul-batched(N,2,3)", "x", []hx.DimSpec{N, fx(2), fx(3)}, batchIO{[]int{1, 2, 3}, 0}, nil, []*onnx.NodeProto{hx.Node("MatMul", []string{"x", "W"}, []string{"y"}, nil)}, []*onnx.TensorProto{init("W", 3, 2)}, map[string]int{"y": 0}, nil, nil)
 	mkModel("Flatten+Gemm(N,2,3)", "x", []hx.DimSpec{N, fx(2), fx(3)}, batchIO{[]int{1, 2, 3}, 0}, nil, []*onnx.NodeProto{hx.Node("Flatten", []string{"x"}, []string{"f"}, []hx.Attr{hx.AInt("axis", 1)}), hx.Node("Gemm", []string{"f", "W6", "b"}, []string{"y"}, nil)}, []*onnx.TensorProto{init("W6", 6, 2), init("b", 2)}, map[string]int{"y": 0, "f": 0}, nil, nil)
@@ -371,6 +383,16 @@ func checkC16(c *hx.Checker) {
 		ml := maxLen
 		if bm.Name == "sample:ndm" {
 			ml = 3
+		}
+		if strings.Contains(bm.Name, "/wide") {
+			for n := 1; n <= 72; n++ {
+				b := make([]int, n)
+				for i := range b {
+					b[i] = (i*2 + i/3) % pool
+				}
+				jobs = append(jobs, job{bm, b})
+			}
+			continue
 		}
 		for _, sq := range seqs(rangeI64(0, pool-1), 1, ml) {
 			b := make([]int, len(sq))
